@@ -146,6 +146,7 @@ def main():
         if o.kind == 'prop':
             run.sample(dict(obligation=o.name, harness=o.file, func=o.func, env=o.env), cap=12)
     nd = sum(1 for o in run.obligations if o['verdict'] == 'discharged')
+    run.extra['timing_s'] = {o['name']: [o['verdict'], o['solver_s']] for o in run.obligations}
     run.finish(coverage=dict(
         explanation='bounded symbolic execution (CrossHair/z3) of the real workflow builder/graph code: every '
                     f'obligation enumerates ALL paths over symbolic edge sets of <= {nmax} tasks, symbolic static '
